@@ -173,7 +173,7 @@ fn resend_strategy() -> impl Strategy<Value = Resend> {
         (any::<bool>(), any::<bool>(), any::<bool>(), prop_oneof![Just(30u64), Just(60), Just(10_000)], 1u8..=5),
         proptest::collection::vec(any::<bool>(), 1..8),
         0u8..3,
-        proptest::collection::vec(proptest::collection::vec(any::<u8>(), 0..6), 0..3),
+        proptest::collection::vec(crate::sim::generate::junk_ack_bytes(), 0..3),
         any::<bool>(),
         0u8..2,
         any::<bool>(),
